@@ -715,8 +715,14 @@ func (rm RoundingMode) round(shift, neg bool, sig uint128, exp int16, trunc int8
 							exp -= 19
 						}
 
-						for exp > minBiasedExponent && sig[1] <= 0x0002_7fff_ffff_ffff/10 {
-							sig = sig.mul64(10)
+						for exp > minBiasedExponent {
+							tmp := sig.mul64(10)
+
+							if tmp.sub64(1)[1] > 0x0002_7fff_ffff_ffff {
+								break
+							}
+
+							sig = tmp
 							exp--
 						}
 					} else {
